@@ -34,6 +34,15 @@ Definition select_uuids (d : dbstate) (t : sym) (wh : list cond) : list (sym * g
 Definition project (cols : list sym) (r : row) : row :=
   filter (fun kv => fst kv ∈ cols) r.
 
+(** the columns a select or wait names exist ([_uuid] is one) *)
+Definition cols_valid (T : table) (cols : list sym) : bool :=
+  forallb (fun c => N.eqb c ucol || bool_decide (is_Some (find_col T c))) cols.
+
+(** select: the result rows hold the requested columns ([] = "columns" omitted: the whole row) *)
+Definition select_row (cols : list sym) (r : row) : row := match cols with [] => r | _ => project cols r end.
+Definition select_project (cols : list sym) (sel : list (sym * gmap sym value)) : list (sym * gmap sym value) :=
+  map (fun ur => (fst ur, select_row cols (snd ur))) sel.
+
 (** apply a row operation to every selected row *)
 Definition apply_rows (T : table) (d : dbstate) (sel : list (sym * gmap sym value)) (f : row -> res (option row)) : res dbstate :=
   rfold (fun d' ur =>
@@ -72,7 +81,8 @@ Definition exec_op (S : schema) (d0 d : dbstate) (o : op) : result * dbstate :=
   | OSelect t wh cols =>
       with_table t (fun T =>
         if negb (conds_valid T wh) then (RErr EOther, d)
-        else (RRows (select_uuids d t wh), d))
+        else if negb (cols_valid T cols) then (RErr EOther, d)
+        else (RRows (select_project cols (select_uuids d t wh)), d))
   | OUpdate t wh w =>
       with_table t (fun T =>
         if negb (conds_valid T wh) then (RErr EOther, d)
@@ -102,7 +112,8 @@ Definition exec_op (S : schema) (d0 d : dbstate) (o : op) : result * dbstate :=
   | OWait t wh cols until_eq rows =>
       with_table t (fun T =>
         if negb (conds_valid T wh) then (RErr EOther, d)
-        else let same := wait_rows_equal cols (select_uuids d t wh) rows in
+        else let cols' := match cols with [] => map c_name (t_cols T) | _ => cols end in   (* omitted: every column *)
+             let same := wait_rows_equal cols' (select_uuids d t wh) rows in
              if Bool.eqb same until_eq then (REmpty, d) else (RErr ETimedOut, d))
   | OOther => (RErr ENotSupported, d)
   end.
